@@ -108,13 +108,13 @@ func tamperValues(name string, v reflect.Value, other reflect.Value) []reflect.V
 		add(other.String())
 	case reflect.Int, reflect.Int64:
 		x := v.Int()
-		for _, y := range []int64{x + 1, x - 1, 0, 2*x + 1, math.MaxInt64, -x} {
-			add(y)
-		}
-		if name == "TransactionType" {
+		if name == "TransactionType" { // the defined types first, so that a reported case is a meaningful one
 			for _, y := range []int64{transaction.TxnTypeSend, transaction.TxnTypeData, transaction.TxnTypeSmartContract, transaction.TxnTypeLockIn} {
 				add(y)
 			}
+		}
+		for _, y := range []int64{x + 1, x - 1, 0, 2*x + 1, math.MaxInt64, -x} {
+			add(y)
 		}
 		add(other.Int())
 	case reflect.Uint64:
@@ -145,10 +145,15 @@ func errClass(err error) string {
 		s = ce.Code
 	}
 	s = strings.SplitN(s, ":", 2)[0]
-	if len(s) > 40 {
-		s = s[:40]
+	// keep the leading words only (library errors embed the offending data)
+	var words []string
+	for _, w := range strings.Fields(s) {
+		if strings.ContainsAny(w, "0123456789") || len(words) == 4 {
+			break
+		}
+		words = append(words, w)
 	}
-	return "rejected(" + s + ")"
+	return "rejected(" + strings.Join(words, " ") + ")"
 }
 
 // intake is what a node does with a transaction received on the wire.
@@ -219,8 +224,8 @@ func c30() {
 				}
 				bases = append(bases, c30base{fmt.Sprintf("%s/client%d/%s", scheme, ci, kind), t, kp})
 			}
-			mk("send", transaction.TxnTypeSend, refHash([]byte(fmt.Sprintf("recipient-%d", ci))), "", 100+uint64(ci), 10, 1)
 			mk("data", transaction.TxnTypeData, refHash([]byte("data-sink")), fmt.Sprintf("hello-%d", ci), 40, 3, 2)
+			mk("send", transaction.TxnTypeSend, refHash([]byte(fmt.Sprintf("recipient-%d", ci))), "", 100+uint64(ci), 10, 1)
 			mk("smart-contract", transaction.TxnTypeSmartContract, scAddr, fmt.Sprintf(`{"name":"pour","input":{"n":%d}}`, ci), 5, 7, 3)
 		}
 		for bi, base := range bases {
